@@ -74,6 +74,7 @@ func NewLexer(source []rune) *Lexer {
 
 // Next - return current rune, and move forward the cursor for 1 character.
 func (l *Lexer) Next() rune {
+	verifTick()
 	// the cursor never exceeds the end of source
 	if l.cursor < len(l.Source) {
 		l.cursor += 1
